@@ -473,6 +473,10 @@ func (l scriptLoader) bulk(kind string, keys []int, olds []int) (map[int]int, er
 	} else {
 		m = map[int]int{}
 	}
+	if len(m) == 0 && len(keys)%2 == 1 {
+		// a loader with nothing to report may just as well return a nil map (with or without an error)
+		m = nil
+	}
 	switch p[0] {
 	case "ok":
 		return m, nil
